@@ -463,12 +463,84 @@ func Resolve(v ssa.Value) ssa.Value {
 			return v
 		}
 		st := StoresTo(cell)
-		if len(st) != 1 || AddressTaken(cell) {
+		if AddressTaken(cell) {
 			return v
 		}
-		v = st[0].Val
+		if len(st) == 1 {
+			v = st[0].Val
+			continue
+		}
+		// several stores: use reaching definitions when the cell is purely local
+		if rs := ReachingStores(u); len(rs) == 1 {
+			v = rs[0].Val
+			continue
+		}
+		return v
 	}
 	return v
+}
+
+// Captured reports whether the cell is bound into any closure.
+func Captured(cell *ssa.Alloc) bool {
+	for _, in := range Referrers(cell) {
+		if _, ok := in.(*ssa.MakeClosure); ok {
+			return true
+		}
+	}
+	return false
+}
+
+// ReachingStores returns the stores to the load's cell that may reach the load
+// (intra-procedural reaching definitions).  It returns nil when the cell is
+// captured by a closure or its address escapes (then any store anywhere may
+// reach), or when some path reaches the load without a store.
+func ReachingStores(load *ssa.UnOp) []*ssa.Store {
+	cell, ok := load.X.(*ssa.Alloc)
+	if !ok || Captured(cell) || AddressTaken(cell) {
+		return nil
+	}
+	var out []*ssa.Store
+	seenStore := map[*ssa.Store]bool{}
+	visited := map[*ssa.BasicBlock]bool{}
+	incomplete := false
+	lastStoreBefore := func(b *ssa.BasicBlock, limit int) *ssa.Store {
+		for i := limit - 1; i >= 0; i-- {
+			if st, ok := b.Instrs[i].(*ssa.Store); ok && st.Addr == cell {
+				return st
+			}
+		}
+		return nil
+	}
+	var walkPreds func(b *ssa.BasicBlock)
+	walkPreds = func(b *ssa.BasicBlock) {
+		if len(b.Preds) == 0 {
+			incomplete = true // reached function entry without a store (zero value)
+			return
+		}
+		for _, p := range b.Preds {
+			if visited[p] {
+				continue
+			}
+			visited[p] = true
+			if st := lastStoreBefore(p, len(p.Instrs)); st != nil {
+				if !seenStore[st] {
+					seenStore[st] = true
+					out = append(out, st)
+				}
+				continue
+			}
+			walkPreds(p)
+		}
+	}
+	b := load.Block()
+	if st := lastStoreBefore(b, instrIndex(load)); st != nil {
+		return []*ssa.Store{st}
+	}
+	walkPreds(b)
+	if incomplete {
+		return nil
+	}
+	return out
 }
 
 // SameValue reports whether two values denote the same runtime value by
